@@ -272,6 +272,11 @@ def explore(ctx):
             ctx.klass("family: stale skip list + propagateAnchors")
         if rng.random() < 0.3 and "TTF" in fn:
             opts["flattenComponents"] = True
+        if fn.endswith("FromDS") and i % 2 == 1 or i % 5 == 2:
+            # a source that SPELLS OUT the name of its font's default layer (as a document written by a tool may): the source
+            # descriptor is the caller's, whatever the compiler makes of the name
+            ds.sources[-1].layerName = fonts[-1].layers.defaultLayer.name
+            ctx.klass("family: a source naming its font's default layer explicitly")
         case = {"function": fn, "options": jsonable(opts), "lib": lib, "masters": n, "font": jsonable(masters[0])}
         ctx.klass("family:" + fn + ("+vf-info" if vf_info else ""))
         if fn == "compileInterpolatableTTFs":
